@@ -437,7 +437,10 @@ def diagram_with_absent_component(rnd, evl, present, acc):
 
     from ..monitors_more import register_puml
 
-    tops = sorted(m for m in present if m.count(".") == 1)
+    import re as _re
+
+    # names the diagram parser's name class can spell (see the known finding of C06) and no '__init__' pseudo module
+    tops = sorted(m for m in present if m.count(".") == 1 and _re.fullmatch(r"[\w.]+", m) and not m.endswith("__init__"))
     if len(tops) < 2:
         return
     a, b = rnd.sample(tops, 2)
